@@ -1631,3 +1631,56 @@ func (l *Lang) NilDeref() *report.RuleResult {
 	}
 	return res
 }
+
+// ---- kind-oracle -------------------------------------------------------------------------------------------
+//
+// Which node kind a production builds is the grammar's answer to "what is this construct". kind-of-operator
+// decides it for operator productions from PHP's operator table; for everything else the rule compares, per
+// production (keyed by its left-hand side and right-hand side, not by its number), the set of kinds the action
+// can return on its paths - a node kind, a pass-through of a right-hand-side symbol, a list, nil - with the
+// table testdata/oracle/production_kinds.json, produced from the pinned tree. `foreach ($a as [$x, $y])` builds
+// an ExprList; building an ExprArray there (round 6) is printed identically and accepted silently, but it is
+// another program to the formatter and to every consumer of the tree.
+func (l *Lang) ProductionKinds() map[string][]string {
+	out := map[string][]string{}
+	for n := 1; n < len(l.Actions); n++ {
+		a := l.Actions[n]
+		if a == nil {
+			continue
+		}
+		key := a.Prod.LHS + ": " + strings.Join(a.Prod.RHS, " ")
+		set := map[string]bool{}
+		if len(a.Undec) > 0 {
+			set["?undecided"] = true
+		}
+		for _, p := range a.Paths {
+			switch v := p.Result.(type) {
+			case *Obj:
+				set[v.TName] = true
+			case Sym:
+				set[fmt.Sprintf("=$%d", v.I)] = true
+			case Nil:
+				set["nil"] = true
+			case ListV:
+				set["list"] = true
+			case nil:
+				set["-"] = true
+			case Stale:
+				set["stale"] = true
+			default:
+				set["other"] = true
+			}
+		}
+		var ks []string
+		for k := range set {
+			ks = append(ks, k)
+		}
+		sort.Strings(ks)
+		if old, dup := out[key]; dup {
+			ks = dedupe(append(old, ks...))
+			sort.Strings(ks)
+		}
+		out[key] = ks
+	}
+	return out
+}
